@@ -10,15 +10,16 @@
 static vh_rng_t rng;
 static vh_key_t K1, K2, KW, KEC, KED, KRSA;
 static jwk_set_t *kset;
-static const jwk_item_t *I1, *I1A, *I2, *IW, *IECpriv, *IECpub, *IED, *IRSA;
+static const jwk_item_t *I1, *I1A, *I2, *IW, *IECpriv, *IECpub, *IED, *IRSA, *IRSApub;
 
-#define NTOK 31
+#define NTOK 33
 static char *TOK[NTOK];
 static const char *TOKNAME[NTOK] = { "NULL", "empty", "no-dots", "one-dot", "header-not-base64", "header-not-json", "unknown-alg", "missing-alg",
 	"non-string-alg", "payload-not-json", "expired", "not-yet-valid", "wrong-iss", "alg-none-unsigned", "wrong-alg-HS384", "bad-signature",
 	"signature-not-base64", "valid-A", "valid-B", "exp-not-integer", "kid-fail(callback error)", "kid-bad(callback picks inadmissible key)",
 	"kid-k2(valid under K2)", "kid-weak(callback picks too-small key)", "huge-valid", "valid-none-token", "wrong-aud",
-	"payload-json-array", "payload-json-array-signed-valid", "header-json-array", "payload-empty-object-unsigned" };
+	"payload-json-array", "payload-json-array-signed-valid", "header-json-array", "payload-empty-object-unsigned",
+	"rs256-valid", "rs256-bad-signature" };
 
 static char *mk(const vh_key_t *k, int alg, const char *hdr, const char *pl) { return vh_ref_token(k, alg, hdr, pl); }
 
@@ -59,6 +60,9 @@ static void build_pool(void)
 	TOK[28] = mk(&K1, JWT_ALG_HS256, H, "[\"iss\",\"me\"]");
 	TOK[29] = mk(&K1, JWT_ALG_HS256, "[\"alg\",\"HS256\"]", "{\"iss\":\"me\"}");
 	TOK[30] = mk(NULL, JWT_ALG_NONE, "{\"alg\":\"none\"}", "{}");
+	TOK[31] = mk(&KRSA, JWT_ALG_RS256, "{\"alg\":\"RS256\",\"typ\":\"JWT\"}", "{\"iss\":\"me\",\"aud\":\"x\"}");
+	TOK[32] = mk(&KRSA, JWT_ALG_RS256, "{\"alg\":\"RS256\",\"typ\":\"JWT\"}", "{\"iss\":\"me\",\"aud\":\"x\",\"n\":2}");
+	{ size_t l = strlen(TOK[32]); TOK[32][l - 5] = TOK[32][l - 5] == 'A' ? 'B' : 'A'; }
 }
 
 /* checker callback: select key by kid */
@@ -75,7 +79,9 @@ static int kid_cb(jwt_t *jwt, jwt_config_t *cfg)
 	return 0;
 }
 
-#define NCFG 4
+#define NCFG 5
+static int PRISTINE[2][NCFG][NTOK];
+static int cur_prov;
 static jwt_checker_t *mk_checker(int cfg)
 {
 	jwt_checker_t *c = jwt_checker_new();
@@ -85,6 +91,7 @@ static jwt_checker_t *mk_checker(int cfg)
 	case 1: jwt_checker_setkey(c, JWT_ALG_HS256, I1); jwt_checker_claim_set(c, JWT_CLAIM_ISS, "me"); jwt_checker_setcb(c, kid_cb, NULL); break;
 	case 2: break;
 	case 3: jwt_checker_setkey(c, JWT_ALG_NONE, I1A); jwt_checker_time_leeway(c, JWT_CLAIM_EXP, -1); jwt_checker_claim_set(c, JWT_CLAIM_AUD, "x"); break;
+	case 4: jwt_checker_setkey(c, JWT_ALG_RS256, IRSApub); jwt_checker_claim_set(c, JWT_CLAIM_ISS, "me"); break;
 	}
 	if (jwt_checker_error(c)) vh_harness_fail("checker config failed: %s", jwt_checker_error_msg(c));
 	return c;
@@ -104,7 +111,7 @@ static void verify_step(long hist, int step, int cfg, jwt_checker_t *reused, int
 	rf = jwt_checker_verify(fresh, TOK[tok]);
 	ef = jwt_checker_error(fresh); snprintf(mf, sizeof(mf), "%.64s", jwt_checker_error_msg(fresh));
 	printf("[\"V\",%ld,%d,%d,%d,%d,%d,%d,", hist, step, cfg, tok, clear, rr, er); put_msg(mr);
-	printf(",%d,%d,", rf, ef); put_msg(mf); printf("]\n");
+	printf(",%d,%d,", rf, ef); put_msg(mf); printf(",%d]\n", PRISTINE[cur_prov][cfg][tok]);
 	jwt_checker_free(fresh);
 }
 
@@ -118,6 +125,7 @@ static int b_cb(jwt_t *jwt, jwt_config_t *cfg)
 	case 1: return 1;
 	case 2: cfg->key = IECpub; cfg->alg = JWT_ALG_ES256; break;
 	case 3: cfg->key = IW; cfg->alg = JWT_ALG_HS256; break;
+	case 5: cfg->key = I2; cfg->alg = JWT_ALG_HS256; break;	/* another usable key for this token only */
 	case 4: jwt_set_SET_INT(&v, "step", x->step); v.replace = 1; jwt_claim_set(jwt, &v);
 		jwt_set_SET_STR(&v, "iss", "edited"); v.replace = 1; jwt_claim_set(jwt, &v); break;
 	default: break;
@@ -156,11 +164,12 @@ static void gen_step(long hist, int step, int cfg, jwt_builder_t *reused, bctx_t
 		const char *dr = strrchr(tr, '.'), *df = strrchr(tf, '.');
 		same = !strcmp(tr, tf);
 		same_hp = (dr - tr) == (df - tf) && !strncmp(tr, tf, (size_t)(dr - tr));
+		if (action == 5) vk = &K2;
 		if (vk) { refr = vh_ref_token_valid(vk, tr, NULL); reff = vh_ref_token_valid(vk, tf, NULL); }
 	}
 	printf("[\"G\",%ld,%d,%d,%d,%d,%d,%d,", hist, step, cfg, action, clear, tr == NULL, er); put_msg(mr);
 	printf(",%d,%d,", tf == NULL, ef); put_msg(mf);
-	printf(",%d,%d,%d,%d,%d]\n", same_hp, same, refr, reff, cfg != 2 && cfg != 4);
+	printf(",%d,%d,%d,%d,%d]\n", same_hp, same, refr, reff, (cfg != 2 && cfg != 4) || action == 5);
 	free(tr); free(tf);
 	jwt_builder_free(fresh);
 }
@@ -176,9 +185,29 @@ int main(int argc, char **argv)
 		vh_harness_fail("keygen");
 	I1 = vh_key_load(&K1, 1, NULL, &kset); I1A = vh_key_load(&K1, 1, "HS256", &kset); I2 = vh_key_load(&K2, 1, NULL, &kset);
 	IW = vh_key_load(&KW, 1, NULL, &kset); IECpriv = vh_key_load(&KEC, 1, NULL, &kset); IECpub = vh_key_load(&KEC, 0, NULL, &kset);
-	IED = vh_key_load(&KED, 1, NULL, &kset); IRSA = vh_key_load(&KRSA, 1, NULL, &kset);
+	IED = vh_key_load(&KED, 1, NULL, &kset); IRSA = vh_key_load(&KRSA, 1, NULL, &kset); IRSApub = vh_key_load(&KRSA, 0, NULL, &kset);
 	build_pool();
 	for (int t = 0; t < NTOK; t++) printf("[\"TOK\",%d,\"%s\"]\n", t, TOKNAME[t]);
+	/* pristine verdicts: every (provider, configuration, token) on a fresh checker, tokens that may be valid first, so
+	 * that no failing verification has happened in this process when a valid token is judged */
+	{
+		static const int ORDER_FIRST[] = { 17, 18, 22, 24, 25, 30, 31, 28 };
+		int done[NTOK] = { 0 };
+		vh_now = NOW;
+		for (int pass = 0; pass < 2; pass++)
+		for (int q = 0; q < (pass == 0 ? (int)(sizeof(ORDER_FIRST) / sizeof(int)) : NTOK); q++) {
+			int t = pass == 0 ? ORDER_FIRST[q] : q;
+			if (done[t]) continue;
+			done[t] = 1;
+			for (int prov = 0; prov < 2; prov++) for (int cfg = 0; cfg < NCFG; cfg++) {
+				jwt_checker_t *c;
+				vh_set_prov(prov);
+				c = mk_checker(cfg);
+				PRISTINE[prov][cfg][t] = jwt_checker_verify(c, TOK[t]) ? 1 : 0;
+				jwt_checker_free(c);
+			}
+		}
+	}
 	if (!strcmp(a.mode, "pairs")) {
 		for (int prov = 0; prov < 2; prov++)
 		for (int cfg = 0; cfg < NCFG; cfg++)
@@ -188,7 +217,7 @@ int main(int argc, char **argv)
 			jwt_checker_t *c;
 			if (!vh_mine(&a, hist)) continue;
 			vh_case_begin(hist, "\"mode\":\"pairs\",\"cfg\":%d,\"t1\":%d,\"t2\":%d,\"clear\":%d", cfg, t1, t2, cl);
-			vh_set_prov(prov);
+			vh_set_prov(prov); cur_prov = prov;
 			c = mk_checker(cfg);
 			verify_step(hist, 0, cfg, c, t1, 0);
 			verify_step(hist, 1, cfg, c, t2, cl);
@@ -197,8 +226,8 @@ int main(int argc, char **argv)
 		}
 		for (int prov = 0; prov < 2; prov++)
 		for (int cfg = 0; cfg < NBCFG; cfg++)
-		for (int a1 = 0; a1 < 5; a1++)
-		for (int a2 = 0; a2 < 5; a2++)
+		for (int a1 = 0; a1 < 6; a1++)
+		for (int a2 = 0; a2 < 6; a2++)
 		for (int cl = 0; cl < 2; cl++, hist++) {
 			bctx_t ctx = { 0, 0 };
 			jwt_builder_t *b;
@@ -218,7 +247,8 @@ int main(int argc, char **argv)
 			vh_rng_seed(&rng, a.seed, 6000000 + (uint64_t)h);
 			len = 2 + (int)vh_below(&rng, 19);
 			vh_case_begin(h, "\"mode\":\"rand\",\"len\":%d", len);
-			vh_set_prov((int)vh_below(&rng, 2));
+			cur_prov = (int)vh_below(&rng, 2);
+			vh_set_prov(cur_prov);
 			if (vh_below(&rng, 3)) {
 				int cfg = (int)vh_below(&rng, NCFG);
 				jwt_checker_t *c = mk_checker(cfg);
@@ -230,7 +260,7 @@ int main(int argc, char **argv)
 				bctx_t ctx = { 0, 0 };
 				jwt_builder_t *b = mk_builder(cfg, &ctx);
 				for (int s = 0; s < len; s++)
-					gen_step(h, s, cfg, b, &ctx, (int)vh_below(&rng, 5), (int)vh_below(&rng, 2));
+					gen_step(h, s, cfg, b, &ctx, (int)vh_below(&rng, 6), (int)vh_below(&rng, 2));
 				jwt_builder_free(b);
 			}
 		}
